@@ -3,5 +3,10 @@
 // Package verifhook provides no-op yield points unless built with the verif tag.
 package verifhook
 
+import "unsafe"
+
 // Yield is a no-op in normal builds.
 func Yield(point string) {}
+
+// YieldP is a no-op in normal builds.
+func YieldP(point string, p unsafe.Pointer) {}
